@@ -73,9 +73,11 @@ func sumAllD(evs []vEv, d string) *big.Int {
 
 func sumAll(evs []vEv) *big.Int { return sumAllD(evs, e.Denom) }
 
-func (m *vModel) OriginalD(d string) *big.Int          { return sumAllD(m.Vest, d) }
-func (m *vModel) VestedD(t int64, d string) *big.Int   { return sumReleasedD(m.Vest, t, d) }
-func (m *vModel) UnvestedD(t int64, d string) *big.Int { return new(big.Int).Sub(m.OriginalD(d), m.VestedD(t, d)) }
+func (m *vModel) OriginalD(d string) *big.Int        { return sumAllD(m.Vest, d) }
+func (m *vModel) VestedD(t int64, d string) *big.Int { return sumReleasedD(m.Vest, t, d) }
+func (m *vModel) UnvestedD(t int64, d string) *big.Int {
+	return new(big.Int).Sub(m.OriginalD(d), m.VestedD(t, d))
+}
 func (m *vModel) UnlockedD(t int64, d string) *big.Int {
 	s := new(big.Int)
 	for _, tr := range m.Tranches {
@@ -89,10 +91,10 @@ func (m *vModel) UnlockedD(t int64, d string) *big.Int {
 }
 
 // native-denomination shorthands
-func (m *vModel) Original() *big.Int          { return m.OriginalD(e.Denom) }
-func (m *vModel) Vested(t int64) *big.Int     { return m.VestedD(t, e.Denom) }
-func (m *vModel) Unvested(t int64) *big.Int   { return m.UnvestedD(t, e.Denom) }
-func (m *vModel) Unlocked(t int64) *big.Int   { return m.UnlockedD(t, e.Denom) }
+func (m *vModel) Original() *big.Int        { return m.OriginalD(e.Denom) }
+func (m *vModel) Vested(t int64) *big.Int   { return m.VestedD(t, e.Denom) }
+func (m *vModel) Unvested(t int64) *big.Int { return m.UnvestedD(t, e.Denom) }
+func (m *vModel) Unlocked(t int64) *big.Int { return m.UnlockedD(t, e.Denom) }
 func minBig(a, b *big.Int) *big.Int {
 	if a.Cmp(b) < 0 {
 		return a
